@@ -247,3 +247,6 @@ func (c *Conn) AliveNow() bool {
 	defer c.w.mu.Unlock()
 	return c.Alive()
 }
+
+// CurrentLocked is Current for callers which hold the world lock.
+func (w *World) CurrentLocked() *Conn { return w.current() }
